@@ -18,7 +18,7 @@ CHECKS = {
     "C02": (
         "progmc c02",
         "bounded-exhaustive enumeration of (type, placement, write kind, value shape) cases compiled and executed by the real CLI against a value-semantics model, with guard values on both sides of every written place",
-        "For each of 129 types (13 scalars; byte-array structs of every size 1..64; 18 mixed-alignment structs incl. size < stride, SSE/INTEGER mixes and i128; 7 enums incl. custom discriminants and struct payloads; 7 optionals; 6 error unions; 8 arrays incl. nested and arrays of sum types; 5 structs of sum types) x 3 placements (local between guard locals, field between guard fields of a wrapper struct, middle element of a [3]T) x up to 9 write kinds (plain store, copy then overwrite the source, store through ^mut, return by value, pass+return by value between guard arguments, partial mutation of a copy, anonymous->named struct with reordered fields, element-type array cast, default value) x every top-level shape of the written value (each variant, some/nil, ok/each error): every leaf of the guards, the written place, its neighbours and every copy is printed and compared with plain value semantics (quick: byte structs use 4 of the kinds; thorough: all).",
+        "For each of 129 types (13 scalars; byte-array structs of every size 1..64; 18 mixed-alignment structs incl. size < stride, SSE/INTEGER mixes and i128; 7 enums incl. custom discriminants and struct payloads; 7 optionals; 6 error unions; 8 arrays incl. nested and arrays of sum types; 5 structs of sum types) x 3 placements (local between guard locals, field between guard fields of a wrapper struct, middle element of a [3]T) x up to 11 write kinds (plain store, copy then overwrite the source, store through ^mut, return by value, pass+return by value between guard arguments, partial mutation of a copy, anonymous->named struct with reordered fields, element-type array cast, default value, a literal that reads the place it is assigned to with same-typed members rotated, a call whose argument and result are the same place) x every top-level shape of the written value (each variant, some/nil, ok/each error): plus 1 / 2 / 3 / 5 values of every type passed to a variadic parameter between guards: every leaf of the guards, the written place, its neighbours and every copy is printed and compared with plain value semantics (quick: byte structs use 4 of the kinds; thorough: all).",
         "Only leaf values are observed (padding is not a live value); stack adjacency of locals is whatever the code generator chooses, adjacency is forced by the field and element placements; globals are immutable in Capy and are not a write target.",
         "§4 C02",
     ),
@@ -60,7 +60,7 @@ CHECKS = {
     "C14": (
         "progmc c14",
         "bounded-exhaustive enumeration of (root, access chain, parenthesisation, operation) cases against a reference mutability judgement; accepted programs executed against a reference memory model with aliases",
-        "18 roots (`:=` local, `::` local, value parameter, global, ^mut / ^ pointers bound by `:=`, by `::` and as parameters, pointers to arrays of pointers indexed through the pointer, a `^In` pointer held by a `:=` / `::` / annotated `:` / annotated `::` local or a parameter, where the pointer-typed place itself may be rebound iff the local is mutable) x every well-typed chain of <= 3 (thorough 4) steps from {.field, [i], explicit deref, auto-deref, #unwrap} over a struct holding a struct, an array of structs, ^mut and ^ pointers, an optional struct, and arrays of ^ / ^mut pointers, optionally parenthesised x {=, +=, take ^, take ^mut and write through it}: accepted iff the place is writable by the statement's rule; accepted programs are executed and the root, every copy, and both pointees are printed and compared with a reference memory model.",
+        "24 roots (`:=` local, `::` local, value parameter, global, ^mut / ^ pointers bound by `:=`, by `::` and as parameters, pointers to arrays of pointers indexed through the pointer, a `^In` pointer held by a `:=` / `::` / annotated `:` / annotated `::` local or a parameter, where the pointer-typed place itself may be rebound iff the local is mutable; `^mut` pointers to a `^` / `^mut` pointer field; pointers returned by a call, bound to a local or used directly) x every well-typed chain of <= 3 (thorough 4) steps from {.field, [i], explicit deref, auto-deref, #unwrap} over a struct holding a struct, an array of structs, ^mut and ^ pointers, an optional struct, optional ^ / ^mut pointers, and arrays of ^ / ^mut pointers, optionally parenthesised x {=, +=, take ^, take ^mut and write through it}: accepted iff the place is writable by the statement's rule; accepted programs are executed and the root, every copy, and both pointees are printed and compared with a reference memory model.",
         "Paths that pass through immutable data and then through a ^mut pointer stored in it are not judged; pointers come only from ^e / ^mut e of a `:=` local.",
         "§4 C14",
     ),
@@ -144,7 +144,7 @@ CHECKS = {
     "C03": (
         "progmc c03",
         "bounded-exhaustive enumeration of control skeletons against a defer-stack reference interpreter, each compiled and executed by the real CLI",
-        "Every control skeleton over {defer, defer whose expression contains its own conditional break of a labelled block, print, block, labelled block, while, labelled while, loop, if, break, break `l, continue, continue `l, return, .try} with <= 4 items / depth 2 (thorough: <= 5 items / depth 3: 52970 skeletons), as the body of four function forms (`-> ?i32` with a tail value; void, `-> ?void` and `-> Err!void` bodies that fall off their end; quick: the three extra forms up to 3 items), is compiled by the real CLI and run with both values of the branch-driving parameter; the printed character sequence (one letter per defer and per print) must equal the interpreter's, which checks exactly-once, LIFO, inner-before-outer and not-reached-not-run in one comparison.",
+        "Every control skeleton over {defer, defer whose expression contains its own conditional break of a labelled block, print, block, labelled block, while, labelled while, while whose condition block breaks out of the loop, loop, if, break, break `l, continue, continue `l, return, .try} with <= 4 items / depth 2 (thorough: <= 5 items / depth 3: 52970 skeletons), as the body of four function forms (`-> ?i32` with a tail value; void, `-> ?void` and `-> Err!void` bodies that fall off their end; quick: the three extra forms up to 3 items), is compiled by the real CLI and run with both values of the branch-driving parameter; the printed character sequence (one letter per defer and per print) must equal the interpreter's, which checks exactly-once, LIFO, inner-before-outer and not-reached-not-run in one comparison.",
         "Skeletons beyond the bound (7 items, depth 4) are not reached; deferred expressions are single prints or the one jump-containing form.",
         "§4 C03",
     ),
@@ -158,7 +158,7 @@ CHECKS = {
     "C08": (
         "progmc c08",
         "bounded-exhaustive enumeration of (type, operator, operand tuple) and (source, target, value) over boundary values, compiled and executed by the real CLI, against big-integer / IEEE reference arithmetic",
-        "Every integer type (all 12 widths in both tiers) x 16 binary and 3 unary operators x all pairs of 14 boundary operands, at runtime and inside comptime (60 tuples per case as one array-valued block, plus five scalar blocks typed as the result type); f32/f64 x 10 operators x 15x15 values incl. +-0, subnormal, inf, NaN; all 14x14 explicit numeric casts and all implicit conversions the language offers x boundary values; bool and char operators. Every evaluation is performed by an executable built by the real CLI and compared with Python big-integer arithmetic wrapped to the width, exact nearest-even int->float rounding and IEEE arithmetic.",
+        "Every integer type (all 12 widths in both tiers) x 16 binary and 3 unary operators x all pairs of 14 boundary operands, at runtime and inside comptime (60 tuples per case as one array-valued block, plus five scalar blocks typed as the result type); f32/f64 x 10 operators x 15x15 values incl. +-0, subnormal, inf, NaN; all 14x14 explicit numeric casts and all implicit conversions the language offers x boundary values; integer -> f32 / f64 at every rounding boundary (for each binade up to 2^63 the midpoints above neighbours with even / odd last bit and the integers just below / above them) as run-time u64 / negative i64 values and as integer literals typed as the float (annotated, cast, argument, negated, inside comptime); bool and char operators. Every evaluation is performed by an executable built by the real CLI and compared with Python big-integer arithmetic wrapped to the width, exact nearest-even int->float rounding and IEEE arithmetic.",
         "Operands are boundary values and their neighbours, not all 2^64 values; undefined cases of the statement (x/0, MIN/-1, shift >= width, out-of-range float->int) are not generated.",
         "§4 C08",
     ),
@@ -193,7 +193,7 @@ CHECKS = {
     "C06": (
         "capy-verif front-mc",
         "bounded-exhaustive input enumeration and deviation-bounded (1 edit) mutation of the corpus through the complete in-process pipeline in supervised worker processes",
-        "Every string of <= 2 (thorough 3) spellings over a 42-token alphabet in 4 wrappers, every corpus snippet unchanged (with codegen) and with every single-token edit, 34 nesting families to depth 200, and diagnostics of every height 1..34 (thorough 1..120) x 3 kinds x start lines around the 2/3/4-digit boundaries go through the real lex/parse/validate/index/lower/infer(+comptime JIT)/codegen pipeline; panics, aborts, verifier errors, timeouts and diagnostic-rendering failures are reported per input.",
+        "Every string of <= 2 (thorough 3) spellings over a 42-token alphabet in 4 wrappers, every corpus snippet unchanged (with codegen) and with every single-token edit, 34 nesting families to depth 200, diagnostics of every height 1..34 (thorough 1..120) x 3 kinds x start lines around the 2/3/4-digit boundaries, and 4 base values (struct, array, slice, enum variant) wrapped by every chain of <= 2 (thorough 3) wrappers out of {distinct, ^, ^mut, ?} x 16 accesses (field, .len, index, deref, assignment through it, .try, ==, call, cast, #unwrap, switch) go through the real lex/parse/validate/index/lower/infer(+comptime JIT)/codegen pipeline; panics, aborts, verifier errors, timeouts and diagnostic-rendering failures are reported per input.",
         "In-process pipeline with fake_file_system = true as the repository's own tests use; 64 KiB inputs and double edits are not reached; comptime user-code timeouts are counted as inconclusive.",
         "§4 C06",
     ),
